@@ -685,6 +685,13 @@ class BinaryFunction(Function):
 class Log10(UnaryFunction):
     _func_name = "log10"
 
+    def __call__(self, variables, backend=math, **kwargs):
+        if hasattr(backend, self._func_name):
+            return super(Log10, self).__call__(variables, backend=backend, **kwargs)
+        # e.g. SymPy lacks log10
+        (arg,) = self.all_args(variables, backend=backend, **kwargs)
+        return backend.log(arg) / backend.log(10)
+
 
 class Exp(UnaryFunction):
     _func_name = "exp"
